@@ -26,6 +26,8 @@ GEN = {
     "obst2": {"quick": ("MC_Heap_obst2_quick.cfg", 5, 1), "thorough": ("MC_Heap_obst2_quick.cfg", 6, 1)},
     "obst3": {"quick": ("MC_Heap_obst3_quick.cfg", 8, 1), "thorough": ("MC_Heap_obst3_quick.cfg", 9, 1)},
     "obst4": {"quick": ("MC_Heap_obst4_quick.cfg", 7, 1), "thorough": ("MC_Heap_obst4_quick.cfg", 9, 1)},
+    # many sharers of ONE caller-supplied tuple, dropped in every order, then a write (paths of up to 8-9 calls)
+    "share": {"quick": ("MC_Heap_share_quick.cfg", 7, 1), "thorough": ("MC_Heap_share_thorough.cfg", 9, 1)},
     "names":  {"quick": ("MC_Heap_names_quick.cfg", 6, 1),  "thorough": ("MC_Heap_names_quick.cfg", 7, 2)},
 }
 DEVS = {
